@@ -31,7 +31,7 @@ ATTRS = ['app', 'route', 'url_args', 'headers', 'cookies', 'params', 'url', 'url
 
 # which attributes the oracle of each check owns
 DOMAIN = {
-    'C04': ['content_length', 'content_type', 'ctype', 'body', 'json', 'files'],
+    'C04': ['content_length', 'content_type', 'ctype', 'body', 'json', 'files', 'app', 'route', 'url_args'],
     'C15': ['cookies', 'headers', 'is_json_requested', 'remote_route', 'script_name', 'fullpath', 'urlparts', 'url'],
     'C18': ['query', 'GET', 'forms', 'params', 'POST'],
 }
@@ -49,32 +49,43 @@ CACHE_KEY = {a: CACHE + a for a in ATTRS}
 CACHE_KEY.update(app='ombott.app', route='ombott.route', url_args='route.url_args', GET=CACHE + 'query',
                  POST=CACHE + 'post')
 
-# (attribute, environ key) pairs whose cache entry survives an assignment of the key although the
-# attribute is computed from it: recorded defects, excluded from the oracle until repaired.  The
-# same list is the exclusion list of the Lean theorem (`ecKnownStale`, pinned there against the
-# generated table); `known_stale()` recomputes it from the live table so that a repaired pair
-# comes back into scope by itself.
-BY_DESIGN = ({('headers', k) for k in ('CONTENT_LENGTH', 'CONTENT_TYPE')} |
-             {(a, 'HTTP_TRANSFER_ENCODING') for a in ('params', 'json', 'POST', 'forms', 'files', '_body')} |
-             {('_body', 'CONTENT_LENGTH'), ('_body', 'CONTENT_TYPE')})
+# The PINNED residue: (attribute, environ key) pairs whose cache entry survives an assignment of the key
+# although the attribute is computed from it.  They are outside the 20 property texts and are not repaired;
+# the Lean theorem excludes exactly them (`pinnedStale` in Props/EnvCache.lean, proved equal to what the probe of
+# the live code finds uncovered minus the by-design list), and the oracle skips exactly them.  A NEW uncovered
+# pair is not in this list: the oracle reports it with an input.
+_FORM = ('json', 'POST', 'forms', 'files', 'params')
+_URLK = ('', 'HTTP_HOST', 'HTTP_X_FORWARDED_HOST', 'HTTP_X_FORWARDED_PROTO', 'HTTP_X_SCRIPT_NAME', 'PATH_INFO',
+         'QUERY_STRING', 'SCRIPT_NAME', 'SERVER_NAME', 'SERVER_PORT', 'wsgi.url_scheme')
+PINNED_STALE = (
+    {(a, k) for a in _FORM for k in ('CONTENT_LENGTH', 'CONTENT_TYPE')} |
+    {(a, k) for a in ('url', 'urlparts') for k in _URLK} |
+    {('fullpath', k) for k in ('', 'HTTP_X_SCRIPT_NAME', 'PATH_INFO', 'SCRIPT_NAME')} |
+    {('script_name', 'HTTP_X_SCRIPT_NAME'), ('script_name', 'SCRIPT_NAME'), ('is_json_requested', 'HTTP_ACCEPT'),
+     ('remote_route', 'HTTP_X_FORWARDED_FOR'), ('remote_route', 'REMOTE_ADDR'),
+     ('content_type', 'CONTENT_TYPE'), ('ctype', 'CONTENT_TYPE')})
 
-_STALE = None
+# which attributes are computed THROUGH the cache entry of which (a stale entry makes these stale too)
+USES = {'url': ['urlparts'], 'urlparts': ['fullpath'], 'fullpath': ['script_name'], 'ctype': ['content_type'],
+        'json': ['ctype', 'content_length', 'body'], 'POST': ['content_type', 'json', 'content_length', 'body'],
+        'forms': ['POST'], 'files': ['POST'], 'params': ['query', 'forms'], 'GET': ['query'], 'query': ['GET'],
+        'body': ['content_length']}
 
 
-def known_stale():
-    global _STALE
-    if _STALE is None:
-        from harness.tables import envcache as t
-        tab = t.collect()
-        arms = dict(tab['arms'])
-        out = set()
-        for name, key, _ in tab['props']:
-            for k in tab['reads'][name]:
-                row = arms.get(k, tab['arm_http'] if k.startswith('HTTP_') else tab['arm_other'])
-                if key not in row and (name, k) not in BY_DESIGN:
-                    out.add((name, k))
-        _STALE = out
-    return _STALE
+def pinned_from_lean():
+    """the literal list of Props/EnvCache.lean, to keep the two copies from drifting apart"""
+    import os
+    import re
+    src = open(os.path.join(core.LEAN, 'OmbottModel', 'Props', 'EnvCache.lean')).read()
+    m = re.search(r'def pinnedStale : List \(String × String\) :=\s*\[(.*?)\]\n', src, flags=re.S)
+    return set(re.findall(r'\("([^"]*)", "([^"]*)"\)', m.group(1))) if m else None
+
+
+def check_pinned():
+    lean = pinned_from_lean()
+    if lean != set(PINNED_STALE):
+        raise core.Infra(f'PINNED_STALE of harness/envcachelib.py and pinnedStale of Props/EnvCache.lean differ: '
+                         f'{sorted(set(PINNED_STALE) ^ (lean or set()))}')
 
 
 # --------------------------------------------------------------------------------------
@@ -486,7 +497,7 @@ def gen_stream(rng, data):
 
 
 def gen_initial(rng, check):
-    cfg = dict(memfile=rng.choice([102400, 102400, 64, 16, 8, 3]), maxbody=rng.choice([None, None, None, 10, 40]),
+    cfg = dict(memfile=rng.choice([102400] * 6 + [64, 16, 8, 3]), maxbody=rng.choice([None] * 7 + [10, 40]),
                xsn=rng.random() < .3, emap=rng.choice(['default', 'default', 'none', 'size', 'odd']))
     env = {'REQUEST_METHOD': rng.choice(['GET', 'POST']), 'SERVER_NAME': 'srv', 'SERVER_PORT': rng.choice(['80', '8080']),
            'wsgi.url_scheme': 'http', 'PATH_INFO': rng.choice(PATHS), 'SCRIPT_NAME': rng.choice(SCRIPTS)}
@@ -518,20 +529,36 @@ def gen_initial(rng, check):
 
 
 class Tracker:
-    """what the oracle may still demand of each request (its own bookkeeping, from the real objects)"""
+    """what the oracle may still demand (its own bookkeeping, read off the real objects): per request, the
+    attributes whose answer may legitimately be stale because a PINNED pair was triggered"""
 
     def __init__(self):
-        self.tainted = set()       # request indices on which a recorded stale pair was triggered
+        self.stale = {}        # request index -> set of attributes
 
     def stale_hit(self, rq, key):
-        """would assigning `key` leave a recorded stale pair behind on this request right now?"""
+        """the attributes a pinned pair leaves stale when `key` is assigned on this request right now"""
         env = rq.environ
-        for (a, k) in known_stale():
-            if k == key:
-                ck = CACHE + 'body' if a == '_body' else CACHE_KEY[a]
-                if ck in env:
-                    return True
-        return False
+        return [a for (a, k) in PINNED_STALE if k == key and CACHE_KEY[a] in env]
+
+    def assigned(self, i, rq, key):
+        hit = self.stale_hit(rq, key)
+        if hit:
+            self.stale.setdefault(i, set()).update(hit)
+
+    def copied(self, i, j):
+        if i in self.stale:
+            self.stale[j] = set(self.stale[i])
+
+    def may_be_stale(self, i, attr, seen=None):
+        """`attr` itself, or something it is computed through, was left stale by a pinned pair"""
+        st = self.stale.get(i)
+        if not st:
+            return False
+        seen = seen or set()
+        if attr in seen:
+            return False
+        seen.add(attr)
+        return attr in st or any(self.may_be_stale(i, u, seen) for u in USES.get(attr, ()))
 
 
 def gen_ops(rng, check, cfg, env, stream, n_ops, safe_bias):
@@ -568,6 +595,8 @@ def gen_ops(rng, check, cfg, env, stream, n_ops, safe_bias):
             for _try in range(6):
                 key = rng.choice(fkeys) if rng.random() < .6 else rng.choice(
                     ['QUERY_STRING', 'CONTENT_LENGTH', 'CONTENT_TYPE', 'HTTP_COOKIE', 'HTTP_X_A', 'X_CUSTOM', 'REMOTE_ADDR'])
+                if key == 'wsgi.input' and rng.random() < .8:
+                    continue
                 if rng.random() >= safe_bias or not tr.stale_hit(reqs[i], key):
                     break
             op = ('d', i, key)
@@ -686,7 +715,6 @@ def oracle_case(cfg, env, stream, ops, domain, pid, stats=None):
     """runs the sequence on the real code; before each read compares with a brand-new request.
     Returns None or (key, what)."""
     reqs = [new_request(cfg, env, stream)]
-    tainted = set()        # requests on which a recorded stale pair was triggered
     cause = {0: 'reread'}
     tr = Tracker()
     try:
@@ -695,11 +723,10 @@ def oracle_case(cfg, env, stream, ops, domain, pid, stats=None):
             rq = reqs[i]
             if k == 'r':
                 attr = op[2]
-                skip = None
                 if attr not in domain:
                     skip = 'other-domain'
-                elif i in tainted:
-                    skip = 'stale-pair-triggered'
+                elif tr.may_be_stale(i, attr):
+                    skip = 'pinned-pair-triggered'
                 else:
                     skip = excluded(rq, attr)
                 want = None
@@ -714,7 +741,6 @@ def oracle_case(cfg, env, stream, ops, domain, pid, stats=None):
                     return (f'{pid}:{cause.get(i, "reread")}:stale-{attr}',
                             f'op {n} of {",".join(op_token(o) for o in ops)}: request{i}.{attr} answered {got[:80]}, a brand-new '
                             f'request on the current environ answers {want[:80]}')
-                # a failed POST run taints nothing by itself: `excluded` looks at the leftovers
             else:
                 if k in ('s', 'd'):
                     key = op[2]
@@ -723,16 +749,18 @@ def oracle_case(cfg, env, stream, ops, domain, pid, stats=None):
                         changed = not (key in rq.environ and rq.environ[key] == op[3])
                     elif key in rq.environ and rq.environ[key] == '':
                         changed = False
-                    if changed and tr.stale_hit(rq, key):
-                        tainted.add(i)
+                    if changed:
+                        tr.assigned(i, rq, key)
+                    elif k == 'd':
+                        # `del` of a key holding '' fires no event: dependents of a pinned pair stay as they are
+                        tr.assigned(i, rq, key)
                     cause[i] = 'setitem'
                 elif k == 'i':
                     cause[i] = 'setitem'
                 elif k == 'c':
                     j = len(reqs)
                     cause[j] = 'copy'
-                    if i in tainted:
-                        tainted.add(j)
+                    tr.copied(i, j)
                 core.with_timeout(lambda: apply_op(reqs, op), 10)
     finally:
         close_all(reqs)
@@ -795,3 +823,68 @@ def replay_case(data, check, pid):
     outs, tabs = run_real(*c)
     return dict(line=line_of(c[0], tabs, c[1], c[2], c[3]), impl=answer_of(outs),
                 oracle=oracle_case(*c, DOMAIN[check], pid))
+
+
+# --------------------------------------------------------------------------------------
+# hooking the stream into an existing check
+
+EC_ANCHORS = ['ombott/request_pkg/request.py', 'ombott/request_pkg/helpers.py', 'ombott/request_pkg/props_mixin.py',
+              'ombott/request_pkg/body_mixin.py']
+EC_RULE = (' || cache layer (envcache): random operation sequences (read any cached property, request[k] = v, del request[k], '
+           'a new wsgi.input, request.copy() and operations on copies of copies) on real Request objects vs Model/EnvCache.lean, '
+           'and the same sequences with the caches wiped before every read vs the cache-free reference (envcache spec); '
+           'oracle: every read equals the read on a brand-new Request built from the current environ without its cache entries '
+           '(pinned residue pairs and a header view taken over by copy() excluded)')
+EC_ASSUMPTIONS = ['cache layer: environ keys under ombott.* / route.* are the framework\'s own (not assigned by the application); '
+                  'request["wsgi.input"] is assigned stream objects only; app_name_header has its default',
+                  'cache layer: quote / urljoin / SplitResult.geturl / json.loads / the multipart collector enter the model as '
+                  'recorded graphs of the real functions; SimpleCookie through the tokeniser model of C15']
+
+
+def install(cls, quick=(500, 350), thorough=(30000, 12000)):
+    """adds the cache-layer stream to check class `cls`: table, anchors, correspondence, oracle, replay"""
+    pid = cls.pid
+    cls.tables = list(cls.tables) + ['envcache']
+    cls.anchors = list(cls.anchors) + [a for a in EC_ANCHORS if a not in cls.anchors]
+    cls.rule = cls.rule + EC_RULE
+    cls.assumptions = list(cls.assumptions) + EC_ASSUMPTIONS
+    o_budget, o_corr, o_search, o_replay, o_nontrivial = cls.budget, cls.corr, cls.search, cls.replay, cls.nontrivial
+
+    def budget(self, tier, escalated):
+        self._ec = (tier, escalated)
+        return o_budget(self, tier, escalated)
+
+    def sizes(self):
+        tier, esc = getattr(self, '_ec', ('quick', False))
+        a, b = quick if tier == 'quick' else thorough
+        return (a * 3, b * 3) if (esc and tier == 'quick') else (a, b)
+
+    def corr(self, rng, n):
+        out = o_corr(self, rng, n)
+        check_pinned()
+        if not hasattr(self, 'stats') or self.stats is None:
+            self.stats = {}
+        out += corr_stream(rng, sizes(self)[0], pid, self.stats)
+        return out
+
+    def search(self, rng, n, seeds):
+        evals, findings = o_search(self, rng, n, [s for s in seeds if not (isinstance(s, dict) and s.get('kind') == 'envcache')])
+        if not hasattr(self, 'stats') or self.stats is None:
+            self.stats = {}
+        ev, fs = search_stream(rng, sizes(self)[1], pid, pid, self.stats, seeds)
+        return evals + ev, list(findings) + fs
+
+    def replay(self, data):
+        i = data.get('input')
+        if isinstance(i, dict) and (i.get('probe') == 'envcache' or i.get('kind') == 'envcache'):
+            return replay_case(i, pid, pid)
+        return o_replay(self, data)
+
+    def nontrivial(self, sample):
+        if isinstance(sample, dict) and sample.get('kind') == 'envcache':
+            kinds = {o[0] for o in sample.get('ops', [])}
+            return 'r' in kinds and bool(kinds & {'s', 'd', 'i', 'c'})
+        return o_nontrivial(self, sample)
+
+    cls.budget, cls.corr, cls.search, cls.replay, cls.nontrivial = budget, corr, search, replay, nontrivial
+    return cls
